@@ -19,5 +19,24 @@ AliasBig == [f2 |-> "n2", fm0 |-> "i0", fb |-> "ib", f3 |-> "n3"]
 IntValBig == [k \in {"n" \o ToString(i) : i \in 1..40} \cup {"i0", "ib"} |->
                 IF k = "i0" THEN 0 ELSE IF k = "ib" THEN 1073741824
                 ELSE CHOOSE i \in 1..40 : k = "n" \o ToString(i)]
+(* extreme numeric keys: the float -> integer key normalisation at its boundaries.  imin/imax = min/maxinteger,
+   i53 = 2^53, i53p = 2^53+1 (integers); f63 = 2^63 (a float key: it has no integer representation), finf/fninf = +-inf,
+   ftiny = 5e-324.  Spellings that denote another key: fm63 = -2^63 (the float) is the key mininteger, fmaxf =
+   maxinteger + 0.0 is the float 2^63, fminf = mininteger + 0.0 is mininteger, f53 = 2^53 (float) is i53, f53p = the
+   float nearest 2^53+1, which is 2^53. *)
+KeysExt == {"i0", "i1", "imin", "imax", "i53", "i53p", "f63", "finf", "fninf", "f25", "ftiny", "sa"}
+AliasExt == [fm0 |-> "i0", f1 |-> "i1", fm63 |-> "imin", fminf |-> "imin", fmaxf |-> "f63", f53 |-> "i53", f53p |-> "i53"]
+IntValExt == [i0 |-> 0, i1 |-> 1]
+(* two closures of one prototype with the same upvalues: whether they are equal is left open by the manual (3.4.4),
+   but a table must agree with ==.  CloEq: the implementation says they are equal, so ck2 is another spelling of the
+   key ck1; CloNe: they are different keys.  The check keeps the variant that matches what `ck1 == ck2` evaluates to. *)
+KeysCloEq == {"ck1", "i1", "sa", "tk"}
+AliasCloEq == [ck2 |-> "ck1", f1 |-> "i1"]
+KeysCloNe == {"ck1", "ck2", "i1", "sa", "tk"}
+AliasCloNe == [f1 |-> "i1"]
+IntValClo == [i1 |-> 1]
+KeysBigCloEq == KeysBig \cup {"ck1"}
+AliasBigCloEq == [f2 |-> "n2", fm0 |-> "i0", fb |-> "ib", f3 |-> "n3", ck2 |-> "ck1"]
+KeysBigCloNe == KeysBig \cup {"ck1", "ck2"}
 AllTravs == {"plain", "update", "rawupdate", "clear", "clearothers", "updateothers"}
 =============================================================================
